@@ -57,8 +57,8 @@ func (p pointKey) String() string {
 // (with or without data in this file) and the written points.
 type fileMetric struct {
 	ID     uint32
-	Fields []fieldDef                                // declared order (memdb: sync.Map range order = arbitrary)
-	Series []uint32                                  // ascending, may include series without any data
+	Fields []fieldDef                                 // declared order (memdb: sync.Map range order = arbitrary)
+	Series []uint32                                   // ascending, may include series without any data
 	Data   map[uint32]map[field.ID]map[uint16]float64 // series -> field -> slot -> value
 }
 
